@@ -26,6 +26,7 @@ func c17(c *Ctx) {
 	c17numbers(c)
 	c17env(c)
 	c17keys(c)
+	c17owned(c)
 	if n := c.freshPerIteration("C17.R5", "core/mapping"); n < 2 {
 		c.R.Undecided("C17.R5", "core/mapping#fresh", "per-iteration stores of reflect.New targets are recognised", fmt.Sprintf("%d found", n))
 	}
@@ -384,4 +385,21 @@ func c17keys(c *Ctx) {
 		}
 	}
 	c.R.Min(rule, 3, "LoadFromJsonBytes, toLowerCaseKeyMap, toLowerCaseInterface")
+}
+
+// c17owned: the JSON text produced from a YAML/TOML document is owned by the load that produced it
+// (a buffer handed back to a pool while its bytes are still being decoded makes concurrent loads of
+// different formats disagree).
+func c17owned(c *Ctx) {
+	rule := "C17.R6"
+	var bad []string
+	n := 0
+	for _, pkg := range []string{encPkg, confPkg, "core/mapping", "core/jsonx"} {
+		for _, fn := range c.P.AllFuncs(pkg) {
+			n++
+			bad = append(bad, pooledEscapes(c, fn)...)
+		}
+	}
+	sort.Strings(bad)
+	c.R.Check(len(bad) == 0 && n > 100, rule, "conversion/decoding functions#ownership", "no function of the loading pipeline returns bytes that alias a buffer it has handed back to a pool (each load decodes its own copy of the converted document)", "-", strings.Join(bad, "; "), bad, n)
 }
